@@ -449,6 +449,12 @@ def compare(fr, op, l, r, node):
             return (l in r) if isinstance(op, ast.In) else (l not in r)
         if isinstance(r, AOpq) or isinstance(l, AOpq):
             return I.opaque("membership with opaque")
+        if isinstance(r, AFin):
+            # a container selected by a few input bits (row of a state table): decided exactly per assignment of those bits
+            r2 = I.simp_fin(r)
+            if not isinstance(r2, AFin):
+                return compare(fr, op, l, r2, node)
+            raise NeedCases(sorted(set(r2.atoms) | (set(I.simp_fin(l).atoms) if isinstance(I.simp_fin(l), AFin) else set())))
         raise Abort(f"membership test in {type(r).__name__}")
     if isinstance(op, (ast.Is, ast.IsNot)):
         same = (l is r) or (l is None and r is None) or (isinstance(l, bool) and isinstance(r, bool) and l == r) \
@@ -661,6 +667,12 @@ def getattr_(fr, base, attr, node):
     if isinstance(base, AFin):
         if all(isinstance(t, EnumMember) for t in base.table) and attr in ("value", "name"):
             return fin_lift(lambda m_: getattr(m_, attr), base)
+        b2 = I.simp_fin(base)
+        if not isinstance(b2, AFin):
+            return getattr_(fr, b2, attr, node)
+        if all(isinstance(t, (list, tuple)) for t in base.table):
+            # a container selected by a few input bits: its methods are analysed per assignment of those bits
+            raise NeedCases(sorted(b2.atoms))
         try:
             base = fr.to_int(base)
         except Abort:
@@ -1672,6 +1684,9 @@ def method(fr, base, name, args, kw, n):
             if any(is_abs(a) for a in args):
                 return I.opaque(f"str/bytes method {name} on abstract", notnone=True)
         if isinstance(base, list) and name in ("append", "extend", "insert", "pop", "remove", "index", "copy", "clear", "reverse", "sort", "count"):
+            if name == "index" and args:
+                args = [I.simp_fin(args[0])] + list(args[1:])
+                base = [I.simp_fin(e) for e in base]
             if name == "index" and args and (isinstance(args[0], AFin) or any(isinstance(e, AFin) for e in base)):
                 # finite-function operands: decided exactly case by case over ALL atoms involved (needle and haystack)
                 acc = set()
